@@ -108,7 +108,7 @@ func c10Apply(m *c10Model, st *c10Step) {
 			m.e[st.R] = oracle.Mul(sarg(), m.e[st.R])
 		}
 	case "e.decode", "e.unmarshal", "e.decodeHex":
-		if p, ok := oracle.DecodeRef(mon.UnH(st.Lit), oracle.FormAny); ok {
+		if p, ok := c10Accepts(st); ok {
 			m.e[st.R] = p
 		}
 	case "e.decodeC":
@@ -347,6 +347,19 @@ func c10GenHistory(r *gen.Rng, pool *gen.Pool, steps int, forced ...oracle.Pt) *
 
 			st.Lit = mon.H(b)
 			lastLit = st.Lit
+
+			if op == "e.decodeHex" && r.Intn(3) == 0 && len(st.Lit) > 2 {
+				// one character of the hex string replaced by a byte that a hand-written nibble decoder may take for a digit:
+				// c-0x20 (control characters 0x10..0x19 for the digits), c|0x80, c+0x10, c&0x1f
+				hs := []byte(st.Lit)
+				i := r.Intn(len(hs))
+				hs[i] = []byte{hs[i] - 0x20, hs[i] | 0x80, hs[i] + 0x10, hs[i] & 0x1f, hs[i] ^ 0x40}[r.Intn(5)]
+
+				if hs[i] >= 'A' && hs[i] <= 'F' {
+					hs[i] |= 0x80 // upper case is a matter of taste (C03): not here
+				}
+				st.Lit2 = string(hs)
+			}
 		case "e.coords":
 			src := gen.Fresh(r).P
 			x, y := src.X, src.Y
@@ -482,12 +495,26 @@ func c10Generate(c *mon.Ctx) {
 // of one record buffer (message first, its capacity running over the tag and beyond; or tag first). The call is made
 // twice and the second result is the one the model is compared with: a call that writes behind one of its arguments
 // changes what the next call reads.
-func c10Record(st *c10Step) (m, d []byte) {
+func c10Record(im *c10Impl, st *c10Step) (m, d []byte) {
 	msg, dst := mon.UnH(st.Lit), mon.UnH(st.Lit2)
 
-	switch (len(msg) + len(dst) + st.R) % 3 {
+	switch (len(msg) + len(dst) + st.R) % 4 {
 	case 0:
 		return msg, dst
+	case 3:
+		// the same two buffers as in earlier steps, edited in place (a cache keyed on the slice instead of its content)
+		if im.mbuf == nil {
+			im.mbuf, im.dbuf = make([]byte, 64), make([]byte, 1024)
+		}
+
+		if len(msg) > len(im.mbuf) || len(dst) > len(im.dbuf) {
+			return msg, dst
+		}
+
+		copy(im.mbuf, msg)
+		copy(im.dbuf, dst)
+
+		return im.mbuf[:len(msg):len(msg)], im.dbuf[:len(dst):len(dst)]
 	case 1:
 		rec := make([]byte, 0, len(msg)+len(dst)+24)
 		rec = append(append(rec, msg...), dst...)
@@ -504,6 +531,8 @@ func c10Record(st *c10Step) (m, d []byte) {
 type c10Impl struct {
 	e [c10NE]*secp256k1.Element
 	s [c10NS]*secp256k1.Scalar
+	// the caller's two long-lived buffers: some hashing steps write message and tag into them (same address, step after step)
+	mbuf, dbuf []byte
 }
 
 func c10Exec(im *c10Impl, st *c10Step) {
@@ -551,7 +580,11 @@ func c10Exec(im *c10Impl, st *c10Step) {
 	case "e.unmarshal":
 		_ = im.e[r].UnmarshalBinary(mon.UnH(st.Lit))
 	case "e.decodeHex":
-		_ = im.e[r].DecodeHex(st.Lit)
+		if st.Lit2 != "" {
+			_ = im.e[r].DecodeHex(st.Lit2)
+		} else {
+			_ = im.e[r].DecodeHex(st.Lit)
+		}
 	case "e.decodeC":
 		_ = im.e[r].DecodeCompressed(mon.UnH(st.Lit))
 	case "e.decodeU":
@@ -572,11 +605,11 @@ func c10Exec(im *c10Impl, st *c10Step) {
 			panic("round trip (hex) rejected: " + err.Error())
 		}
 	case "e.h2g":
-		m, d := c10Record(st)
+		m, d := c10Record(im, st)
 		secp256k1.HashToGroup(m, d)
 		im.e[r] = secp256k1.HashToGroup(m, d)
 	case "e.e2g":
-		m, d := c10Record(st)
+		m, d := c10Record(im, st)
 		secp256k1.EncodeToGroup(m, d)
 		im.e[r] = secp256k1.EncodeToGroup(m, d)
 	case "s.new":
@@ -612,7 +645,7 @@ func c10Exec(im *c10Impl, st *c10Step) {
 			panic("scalar round trip rejected: " + err.Error())
 		}
 	case "s.h2s":
-		m, d := c10Record(st)
+		m, d := c10Record(im, st)
 		secp256k1.HashToScalar(m, d)
 		im.s[r] = secp256k1.HashToScalar(m, d)
 	case "s.cselect":
@@ -853,6 +886,15 @@ func c10Run(c *mon.Ctx, csAny any) {
 
 // c10Accepts reports whether the oracle accepts a decode step's literal.
 func c10Accepts(st *c10Step) (oracle.Pt, bool) {
+	if st.Op == "e.decodeHex" && st.Lit2 != "" {
+		// a literal string that is not (lower-case) hexadecimal: must be rejected
+		if b, ok, upper := strictHex(st.Lit2); ok && !upper {
+			return oracle.DecodeRef(b, oracle.FormAny)
+		}
+
+		return oracle.Pt{}, false
+	}
+
 	switch st.Op {
 	case "e.decode", "e.unmarshal", "e.decodeHex":
 		return oracle.DecodeRef(mon.UnH(st.Lit), oracle.FormAny)
